@@ -988,6 +988,10 @@ func (p *parser) scanGroupOpen() (*RegexNode, error) {
 		return newRegexNodeMN(NtCapture, p.options, p.consumeAutocap(), -1), nil
 	}
 
+	// a "(?...)" construct used as the condition of (?(...)yes|no) is that "next paren" (the
+	// capture pre-scan resets the flag at every paren too)
+	p.ignoreNextParen = false
+
 	p.moveRight(1)
 
 	for p.charsRight() > 0 {
